@@ -176,6 +176,8 @@ class Exec(Engine):
             ex = SExc("AnyError", line=s.lineno)
         if ex.line is None:
             ex.line = s.lineno
+        if ex.rid is None and getattr(s, "_raise_id", None) is not None:
+            ex = SExc(ex.name, ex.args, line=s.lineno, origin=ex.origin, rid=s._raise_id)
         fr.st.events.append(Event("raise", ex.name, line=s.lineno))
         return [Outcome("raise", fr.st, exc=ex)]
 
@@ -1016,7 +1018,8 @@ class Exec(Engine):
                           props=self.props_for(fr.contract, f"call.{short}") or self.props_for(c, name))
             old = st.fork()
             old.env = dict(st.env)
-            st.events.append(Event("call", p.key, args, kwargs, line, extra={"env": dict(env)}))
+            call_event = Event("call", p.key, args, kwargs, line, extra={"env": dict(env)})
+            st.events.append(call_event)
             if c.assumed:
                 st.assumed.append(p.key)
             # exceptional outcomes
@@ -1055,6 +1058,7 @@ class Exec(Engine):
             hook = c.hooks.get("after_call")
             if hook:
                 hook(self, cf, res)
+            call_event.extra["result"] = res
             chook = fr.contract.hooks.get("after:" + short) if fr.contract is not None else None
             if chook:
                 callee_env = st.env
@@ -1178,6 +1182,12 @@ class Exec(Engine):
             st.assume(T.is_VObj(st.env[a.kwarg.arg].t))
         for g, kind in c.ghost.items():
             st.env[g] = named(kind, g) if not kind.startswith("z3:") else self.reg.spec["__mk_" + kind[3:]](g)
+        for g, kind in c.free.items():
+            v = named(kind, g)
+            if kind.startswith("obj:"):
+                st.assume(T.is_VObj(v.t))
+                st.assume(T.tag(v.t) == T.TAG["obj"])
+            st.env[g] = v
         if c.setup:
             c.setup(self, fr)
         sf = fr.sub(spec=True)
@@ -1200,9 +1210,12 @@ class Exec(Engine):
             rep.missing = str(e)
             return rep
         rep.paths = len(outs)
-        for o in outs:
+        for pk, o in enumerate(outs):
             if o.st.taint:
                 rep.tainted_paths.append(list(o.st.taint))
+            # vacuity guard: the hypotheses accumulated along every explored path must be satisfiable
+            self.report.vcs.append(VC(f"path{pk}.{o.kind}.reachable", key, o.st.pc, z3.BoolVal(True), kind="cover", expect="sat",
+                                      props=self.props_for(c, "reachable"), meta={"trace": list(o.st.trace)}))
             if o.kind in ("normal", "return"):
                 val = o.val if o.val is not None else NONE
                 ef = Frame(self, o.st, mod, key, contract=c, spec=True, old=old, cls=cls)
@@ -1211,7 +1224,7 @@ class Exec(Engine):
                         val = self.coerce(val, c.result, ef) if not c.result.startswith("tuple:") else val
                     ef.result = val
                     self.run_ghost(c.ghost_exit, ef)
-                    for name, f in self.eval_clauses(c.ensures, ef):
+                    for name, f in self.eval_clauses(c.ensures + c.trace, ef):
                         self.emit(ef, name, f, kind="post", line=getattr(fn, "lineno", None))
                     for name, fnc in c.events:
                         g = fnc(self, ef, o)
@@ -1224,9 +1237,12 @@ class Exec(Engine):
                 ef = Frame(self, o.st, mod, key, contract=c, spec=True, old=old, cls=cls)
                 ef.exc = o.exc
                 ex = o.exc
-                if c.raises_only is not None and ex.name != "AnyError":
-                    ok = any(exc_matches(ex.name, n) for n in c.raises_only)
-                    self.emit(ef, f"raises_only.{ex.name}@{ex.line}", z3.BoolVal(ok), kind="raises")
+                # exceptions that may escape must be declared: callers only fork on the declared ones
+                allowed = set(c.raises_only) if c.raises_only is not None else set()
+                allowed |= set(c.raises)
+                if "AnyError" not in allowed:
+                    ok = any(exc_matches(ex.name, n) for n in allowed) and ex.name != "AnyError"
+                    self.emit(ef, f"raises_only.{ex.tag}", z3.BoolVal(ok), kind="raises")
                 spec = None
                 for exname, sp in c.raises.items():
                     if exc_matches(ex.name, exname):
@@ -1238,17 +1254,17 @@ class Exec(Engine):
                         when = spec.get("when")
                         if when is not None and spec.get("check_when", True):
                             f = self.truth(self.ev(ast.parse(when, mode="eval").body, ef.sub(st=old.fork(), old=None) if False else ef.sub(st=self._old_view(old, o.st), old=None)), ef)
-                            self.emit(ef, f"raises.{ex.name}@{ex.line}.when", f, kind="raises")
+                            self.emit(ef, f"raises.{ex.tag}.when", f, kind="raises")
                         for k, t in enumerate(spec.get("ensures", [])):
                             nm, tx = (t if not isinstance(t, str) else (f"x{k}", t))
                             for name, f in self.eval_clauses([(nm, tx)], ef):
-                                self.emit(ef, f"raises.{ex.name}@{ex.line}.{name}", f, kind="raises")
+                                self.emit(ef, f"raises.{ex.tag}.{name}", f, kind="raises")
                     for name, f in self.eval_clauses(c.on_raise, ef):
-                        self.emit(ef, f"{name}.{ex.name}@{ex.line}", f, kind="raises")
+                        self.emit(ef, f"{name}.{ex.tag}", f, kind="raises")
                     for name, fnc in c.events:
                         g = fnc(self, ef, o)
                         if g is not None:
-                            self.emit(ef, f"{name}.{ex.name}@{ex.line}", g if z3.is_expr(g) else z3.BoolVal(bool(g)), kind="trace")
+                            self.emit(ef, f"{name}.{ex.tag}", g if z3.is_expr(g) else z3.BoolVal(bool(g)), kind="trace")
                 except Unsupported as e:
                     o.st.add_taint(f"exceptional postcondition not evaluable: {e}")
                     self.emit(ef, "exc.unevaluable", z3.BoolVal(False), kind="raises")
